@@ -29,6 +29,7 @@
 #include <unordered_map>
 #include <vector>
 
+extern "C" char __executable_start, _end;  // linker symbols: bounds of the executable image
 namespace {
 bool g_active = false;      // tracking on (child process, between reset and finish)
 bool g_concurrent = false;  // workers exist
@@ -118,7 +119,11 @@ void describe(char *buf, size_t n, uintptr_t a) {
     }
     snprintf(buf, n, "arena of T%d + %zu", owner, (size_t)((char *)a - g_arena - owner * ARENA_SZ));
   } else {
-    snprintf(buf, n, "address %p (global or stack)", (void *)a);
+    // position-independent description (the executable is a PIE: absolute addresses differ between runs)
+    if ((char *)a >= &__executable_start && (char *)a < &_end)
+      snprintf(buf, n, "static storage at executable+0x%zx", (size_t)((char *)a - &__executable_start));
+    else
+      snprintf(buf, n, "an address outside the executable's static storage and the tracked heap (stack or foreign heap)");
   }
 }
 
